@@ -928,6 +928,11 @@ class C06(Check):
                         out.append(("set", mid, n, v))
             if not narrow:
                 out.append(("setnone", mid, 0))
+            # a group the manager already holds, assigned (by identity) under another / the same name
+            for srcn in m.mgr[mid].keys():
+                for n in NAMES:
+                    if not narrow or n != srcn:
+                        out.append(("setself", mid, n, srcn))
             for n in NAMES:
                 if not narrow or (mid, n) in nar["del"]:
                     out.append(("del", mid, n))
@@ -1004,6 +1009,26 @@ class C06(Check):
                             fails.append(Failure("lm-set", "stored-object-is-the-value", "manager %s holds the very object that was assigned" % mid))
                         independent(val, got, "lm-set", "edit-of-value-reaches-stored:", fails, lambda n: self.note("probe:value->stored", n))
                         independent(got, val, "lm-set", "edit-of-stored-reaches-value:", fails, lambda n: self.note("probe:stored->value", n))
+        elif kind == "setself":
+            mid, name, srcn = op[1], op[2], op[3]
+            mg, od = self._mgr(st, mid), m.mgr[mid]
+            val = mg[srcn]
+            _, exc = attempt(lambda: mg.__setitem__(name, val))
+            self.note("setself:%s" % ("same-name" if name == srcn else "other-name"))
+            if exc is not None:
+                if verify:
+                    fails.append(Failure("lm-set", "raised", "set(%s, %s, own group %s) raised %r" % (mid, name, srcn, exc)))
+                return fails
+            od[name] = _pycopy.deepcopy(od[srcn])
+            if verify and name != srcn:
+                got, src_now = attempt(lambda: mg[name])[0], attempt(lambda: mg[srcn])[0]
+                if got is None or src_now is None:
+                    fails.append(Failure("lm-set", "stored-group-missing", "group %r / %r not retrievable after set" % (name, srcn)))
+                else:
+                    if got is src_now:
+                        fails.append(Failure("lm-set", "stored-object-is-the-value", "manager %s holds one object under %r and %r" % (mid, name, srcn)))
+                    independent(src_now, got, "lm-set", "edit-of-value-reaches-stored:", fails, lambda n: self.note("probe:value->stored", n))
+                    independent(got, src_now, "lm-set", "edit-of-stored-reaches-value:", fails, lambda n: self.note("probe:stored->value", n))
         elif kind == "setnone":
             mid, v = op[1], op[2]
             _, exc = attempt(lambda: self._mgr(st, mid).__setitem__(None, st["pool"][v]))
